@@ -348,9 +348,46 @@ def install(mods):
             emit('gen', gkind='TaskGenerator', seq=_STATE['gen_seq'], nodes=n,
                  dup_ids=d, base=leaf_digest(exprs),
                  mutator=type(mutator).__name__, gran=gran)
-            return orig_tg_init(self, exprs, gran, mutator, max_depth)
+            out = orig_tg_init(self, exprs, gran, mutator, max_depth)
+            shipped_check(self, 'TaskGenerator.__init__')
+            return out
+
+        def id_list(exprs):
+            out = []
+            stack = list(reversed(exprs))
+            while stack:
+                x = stack.pop()
+                out.append(x.id)
+                if not isinstance(x.data, str):
+                    stack.extend(reversed(x.data))
+            return out
+
+        def shipped_check(tg, where):
+            # what the workers get with every task (if anything is pickled
+            # for them) has to be the input of the round itself: the same
+            # tree with the same identities, each of them once
+            try:
+                blob = getattr(tg, 'pickled_exprs', None)
+                if not blob:
+                    return
+                shipped = pickle.loads(blob)
+                n2, d2 = dup_ids(shipped)
+                emit('gen_shipped', where=where, nodes=n2, dup_ids=d2,
+                     same_tokens=(leaf_digest(shipped) ==
+                                  leaf_digest(tg.exprs)),
+                     same_ids=(id_list(shipped) == id_list(tg.exprs)))
+            except Exception as e:  # noqa
+                emit('monitor_error', where='gen_shipped', error=repr(e))
 
         ddmin.TaskGenerator.__init__ = tg_init
+        orig_tg_update = ddmin.TaskGenerator.update
+
+        def tg_update(self, exprs):
+            out = orig_tg_update(self, exprs)
+            shipped_check(self, 'TaskGenerator.update')
+            return out
+
+        ddmin.TaskGenerator.update = tg_update
 
         orig_prod_init = hier.Producer.__init__
 
